@@ -344,6 +344,40 @@ int main(int argc, char** argv) {
                 S.edges[a]++;
                 S.edgesTotal++;
             }
+            if (rot) {
+                // composition law of the defining unitaries: R(a) R(b) = R(a + b). The same edge applied in parts -
+                // a very small part first / last (its output has components far below 1e-6), 1000 equal parts and,
+                // for a few edges per gate, two million equal parts - must end in the same exact state.
+                const double theta = k * PI / 2;
+                auto parts = [&](const std::vector<double>& ds, size_t reps, const std::string& what, double tol) {
+                    QasmSimulator V = U;
+                    try {
+                        for (size_t r = 0; r < reps; ++r)
+                            for (double d : ds) applyGate(V, a, p, k, d);
+                    } catch (const std::exception& ex) {
+                        violation("C01", std::string("enabled action threw: ") + ex.what(), ukey, act + " " + what);
+                        return;
+                    }
+                    double err = 0;
+                    if (!sameUpToPhase(V.verifState(), vecOf(t), err) && !(err < tol))
+                        violation("C01", "rotation applied in parts does not compose to the whole rotation (err=" +
+                                             [&] { char b[32]; snprintf(b, sizeof b, "%.3g", err); return std::string(b); }() + ")", ukey, act + " " + what);
+                    S.edges["rot-in-parts"]++;
+                };
+                static size_t rotSeen = 0;
+                ++rotSeen;
+                if (rotSeen % 3 == 0)
+                    parts({1e-7, theta - 1e-7}, 1, "as R(1e-7) then R(theta-1e-7)", 0);
+                else if (rotSeen % 3 == 1)
+                    parts({theta - 1e-7, 1e-7}, 1, "as R(theta-1e-7) then R(1e-7)", 0);
+                else
+                    parts({theta + 3e-8, -3e-8}, 1, "as R(theta+3e-8) then R(-3e-8)", 0);
+                if (rotSeen % 1499 == 0)
+                    parts({theta / 1000}, 1000, "as 1000 equal parts", 0);
+                static std::map<std::string, int> longRuns;
+                if (!g_log && (k == 1 || k == 2) && longRuns[a + std::to_string(k)]++ < 2)
+                    parts({theta / 2000000}, 2000000, "as 2000000 equal parts", 1e-7);
+            }
             if (S.samples.size() < 8 && S.edgesTotal % 200003 < 3 && S.nodes > 50)
                 S.samples.push_back("{\"state\":" + mj::esc(ukey) + ",\"action\":" + mj::esc(act) + "}");
         }
